@@ -308,10 +308,19 @@ func pipeAnswer(c pipeCfg, r pipeResult) string {
 			inorder = false
 		}
 	}
-	// arrival order is only claimed for one reader and one worker
+	// arrival order: with one worker every source's matches arrive in line order, whatever the number of readers
+	// (theorem pipeline_single_worker_order); the order across sources is only claimed for one reader
+	perSrc := true
+	lastNum := map[int]int{}
+	for _, r := range rows {
+		if n, ok := lastNum[r.src]; ok && n >= r.num {
+			perSrc = false
+		}
+		lastNum[r.src] = r.num
+	}
 	claimed := c.workers == 1 && (c.readers == 1 || len(c.inputs) <= 1)
 	io := 1
-	if claimed && !inorder {
+	if (claimed && !inorder) || (c.workers == 1 && !perSrc) {
 		io = 0
 	}
 	sort.Slice(rows, func(i, j int) bool {
